@@ -767,7 +767,7 @@ func runRandFor(e *env) error {
 	if !ok {
 		return nil
 	}
-	n := 400
+	n := 1000
 	if e.thorough {
 		n = 1500 * e.scale
 	}
